@@ -146,6 +146,23 @@ pub struct Opts {
 
 /// Executes one (program, witness) through every oracle. Never panics itself.
 pub fn run_case(case: &Case, opts: &Opts) -> (Vec<Finding>, Stats) {
+    let (mut fs, st) = run_case_inner(case, opts);
+    // the reference-only findings are implied by the differential ones on the same case
+    let has = |fs: &Vec<Finding>, k: &str| fs.iter().any(|f| f.kind == k);
+    if has(&fs, "offcircuit-fails-circuit-satisfiable") {
+        fs.retain(|f| f.kind != "offcircuit-rejects-valid");
+    }
+    if has(&fs, "offcircuit-ok-circuit-rejects") {
+        let r_side = !has(&fs, "offcircuit-accepts-failing") && !has(&fs, "reference-value-mismatch");
+        fs.retain(|f| f.kind != "offcircuit-accepts-failing" && f.kind != "reference-value-mismatch");
+        for f in fs.iter_mut().filter(|f| f.kind == "offcircuit-ok-circuit-rejects") {
+            f.detail["reference_interpreter_agrees_with"] = json!(if r_side { "off-circuit" } else { "neither or circuit" });
+        }
+    }
+    (fs, st)
+}
+
+fn run_case_inner(case: &Case, opts: &Opts) -> (Vec<Finding>, Stats) {
     let mut fs: Vec<Finding> = vec![];
     let mut st = Stats::default();
     let (exp, _mem) = reference(&case.prog, &case.wit);
@@ -544,6 +561,9 @@ fn has_class(case: &Case, class: &str) -> bool {
 /// Greedy minimisation preserving the finding class.
 pub fn shrink(case: &Case, class: &str) -> Case {
     let mut cur = case.clone();
+    if case.label.starts_with("leaf/") && case.prog.len() <= 3 {
+        return cur; // leaves are minimal by construction
+    }
     let mut budget = 120usize;
     loop {
         let mut changed = false;
@@ -555,11 +575,35 @@ pub fn shrink(case: &Case, class: &str) -> Case {
                 break;
             }
             let mut c = cur.clone();
-            c.prog.remove(i);
+            // instruction i together with everything that (transitively) reads its results
+            let mut dead: Vec<String> = c.prog[i].outputs.clone();
+            let mut keep = vec![];
+            for (j, ins) in c.prog.iter().enumerate() {
+                if j == i {
+                    continue;
+                }
+                if j > i && ins.inputs.iter().any(|n| dead.contains(n)) && !matches!(ins.operation, Operation::Publish) {
+                    dead.extend(ins.outputs.clone());
+                    continue;
+                }
+                let mut ins = ins.clone();
+                if j > i && matches!(ins.operation, Operation::Publish) {
+                    ins.inputs.retain(|n| !dead.contains(n));
+                    if ins.inputs.is_empty() {
+                        continue;
+                    }
+                }
+                keep.push(ins);
+            }
+            if keep.is_empty() {
+                continue;
+            }
+            c.prog = keep;
             budget -= 1;
             if has_class(&c, class) {
                 cur = c;
                 changed = true;
+                i = i.min(cur.prog.len());
             }
         }
         // drop single inputs of variadic instructions and single outputs of loads
@@ -610,15 +654,18 @@ pub fn shrink(case: &Case, class: &str) -> Case {
 // signatures
 // ---------------------------------------------------------------------------------------------
 
-/// Words chosen from the source at known panic sites (file suffix, message fragment, shape).
-const PANIC_SHAPES: &[(&str, &str, &str)] = &[
-    ("zkir/src/instructions/operations/into_bytes.rs", "range start index", "n>limb-bytes"),
-    ("zk_stdlib/src/lib.rs", "must enable jubjub", "jubjub-constant-without-jubjub-chip"),
-    ("", "zero modulus", "modulus-zero"),
-    ("", "divide by zero", "modulus-zero"),
-    ("circuits/src/ecc/curves.rs", "part of the subgroup", "point-constant-outside-subgroup"),
-    ("zkir/src/instructions/operations/load.rs", "chunk size must be non-zero", "load-bytes-0"),
-    ("circuits/src/biguint/biguint_gadget.rs", "subtract with overflow", "biguint-width-0"),
+/// Words chosen from the source at known panic sites: (file suffix, message fragment, shape,
+/// forced sub-check). Anything else gets its normalised message as shape.
+const PANIC_SHAPES: &[(&str, &str, &str, Option<&str>)] = &[
+    ("zkir/src/instructions/operations/into_bytes.rs", "range start index", "n>limb-bytes", Some("into_bytes")),
+    ("zk_stdlib/src/lib.rs", "must enable jubjub", "jubjub-constant-without-jubjub-chip", Some("constant")),
+    ("", "zero modulus", "modulus-zero", Some("mod_exp")),
+    ("", "divide by zero", "modulus-zero", Some("mod_exp")),
+    ("", "Point should be part of the subgroup", "point-constant-outside-subgroup", Some("constant")),
+    ("zkir/src/instructions/operations/load.rs", "chunk size must be non-zero", "load-bytes-0", Some("load")),
+    ("circuits/src/biguint/biguint_gadget.rs", "subtract with overflow", "biguint-width-0", Some("load")),
+    ("circuits/src/field/decomposition/cpu_utils.rs", "cannot be represented with the given limb_sizes", "witness-exceeds-n-bytes", None),
+    ("circuits/src/field/native/native_gadget.rs", "more bytes than necessary", "native-n>32", Some("into_bytes")),
 ];
 
 fn param_class(op: &Operation, inputs: &[Option<Val>]) -> String {
@@ -639,8 +686,9 @@ fn param_class(op: &Operation, inputs: &[Option<Val>]) -> String {
             };
             let lc = match (t, len) {
                 (_, 0) => " len=0",
-                (IrType::Native | IrType::JubjubScalar, l) if l > 32 => " len>32",
-                (IrType::Native | IrType::JubjubScalar, 32) => " len=32",
+                (IrType::JubjubScalar, l) if l >= 32 => " len>=32",
+                (IrType::Native, l) if l > 32 => " len>32",
+                (IrType::Native, 32) => " len=32",
                 (IrType::Native | IrType::JubjubScalar, l) if l < 32 => " len<32",
                 _ => "",
             };
@@ -681,7 +729,8 @@ pub fn signature(f: &Finding, min: &Case) -> String {
     let is_const = |n: &String| !mem.contains_key(n) && !tenv.contains_key(n);
     let any_const = ins.inputs.iter().any(is_const);
     let all_const = !ins.inputs.is_empty() && ins.inputs.iter().all(is_const);
-    let mut sub = if (matches!(ins.operation, Operation::Publish) && any_const) || (all_const && f.kind == "panic" && !file.starts_with("zkir/src/instructions")) {
+    let _ = all_const;
+    let mut sub = if matches!(ins.operation, Operation::Publish) && any_const {
         "constant"
     } else {
         op_name(&ins.operation)
@@ -719,13 +768,24 @@ pub fn signature(f: &Finding, min: &Case) -> String {
             let api = if stage == "public_inputs" { "public_inputs" } else { "min_k" };
             return format!("C18/{api}/panic@{file} synthesis-error-unwrapped");
         }
-        let table = PANIC_SHAPES.iter().find(|(fs, frag, _)| file.ends_with(fs) && raw.contains(frag)).map(|s| s.2.to_string());
+        let table = PANIC_SHAPES.iter().find(|(fs, frag, _, _)| file.ends_with(fs) && raw.contains(frag));
+        if let Some((_, _, _, Some(forced))) = table {
+            sub = forced;
+        }
+        let op_file = match sub {
+            "constant" => "zkir/src/utils/constants.rs".to_string(),
+            s => format!("zkir/src/instructions/operations/{s}.rs"),
+        };
         // panics raised inside third-party crates are attributed to the zkir file of the operation
         let file = if file.starts_with('/') || file == "?" { op_file } else { file };
         return match table {
-            Some(shape) => format!("C18/{sub}/panic@{file} {shape}"),
+            Some((_, _, shape, _)) => format!("C18/{sub}/panic@{file} {shape}"),
             None => format!("C18/{sub}/panic@{file} {}{}", f.msg, pc),
         };
+    }
+    if f.kind == "offcircuit-accepts-illformed" && matches!(ins.operation, Operation::IsEqual | Operation::AssertEqual | Operation::AssertNotEqual) {
+        // one root cause: the off-circuit parser compares IrValues with the derived `==`
+        return "C18/equality/offcircuit-accepts-illformed@zkir/src/parser/offcircuit.rs untyped-comparison".to_string();
     }
     format!("C18/{sub}/{}@{op_file} {}{}", f.kind, tys.join(","), pc)
 }
